@@ -1,5 +1,6 @@
 import Driver.Common
 import OrdModel.Num.Pile
+import OrdModel.Num.Decimal_fixed
 import OrdModel.Text.Outgoing
 import OrdModel.Text.Query
 /- Line handlers for the text engine (`eng_text`): decimal amounts, pile printing, and the
@@ -24,10 +25,19 @@ def decStr (d : Decimal.Dec) : String := s!"{d.value} {d.scale}"
 /-- `ok:105:2` / `err:…` / `panic:…` tokens as produced by the harness (`' '` → `':'`) -/
 def splitRes (s : String) : List String := s.splitOn ":"
 
+/-- **SWITCH**: the model of `Decimal::from_str` that `dec.parse` (the real code) is compared with.
+Unchanged tree: `Decimal.fromStr`.  After `notes/fix-decimal.diff` is applied to /repo:
+`DecimalFixed.fromStr`. -/
+def decFromStr : List Char → Outcome Decimal.Dec := Decimal.fromStr
+
 def handleDecimal : List String → Option String
   | ["dec.parse", h] =>
     match textArg h with
-    | some s => some (renderOutcome decStr (Decimal.fromStr s))
+    | some s => some (renderOutcome decStr (decFromStr s))
+    | none => some "bad-op"
+  | ["decfix.parse", h] =>
+    match textArg h with
+    | some s => some (renderOutcome decStr (DecimalFixed.fromStr s))
     | none => some "bad-op"
   | ["dec.toint", v, sc, d] =>
     match v.toNat?, sc.toNat?, d.toNat? with
